@@ -15,7 +15,10 @@ META = {
             "the connection is a first-class part of the model: TLSHelloConn.Read is emitted as a policy (always through "
             "the bufio.Reader / straight to the connection once the buffer is drained / anything else unknown), proved "
             "transparent for every sequence of caller buffer sizes with any amount of data buffered behind the hello, "
-            "and handing over by byte count is refuted. The peek-buffer size and header "
+            "and handing over by byte count is refuted; the returned *TLSHelloInfo is a cell of its own call (origin of the "
+            "pointer extracted; any sequence of HelloInfo calls leaves every held result saying what its own hello said; a "
+            "pooled result is refuted), checked by holding the results of 2..16 connections - sequential, concurrent, and "
+            "through hostConn with a dialer that reads the hello late. The peek-buffer size and header "
             "constants are regenerated from tls_hello_conn.go on every run and the other function bodies are compared "
             "with the frozen ones; the model is tied to the real code (and to crypto/tls) by differential runs evaluated in Coq.",
     "note": "Trusted: Coq kernel + vm_compute; translator gen/sni_stream.go; harness c14 and its scripted net.Conn; the "
@@ -195,6 +198,27 @@ def impl_oracle(c):
     return None
 
 
+def held_oracle(h):
+    if h.get("crash"):
+        return ("held:crash", "HelloInfo crashed while results were held: %s" % h["crash"][:200])
+    how = {"sequential": "sniffed one after the other", "concurrent": "sniffed concurrently",
+           "proxy": "through hostConn with a dialer that keeps the hello it was given until all were sniffed"}[h["kind"]]
+    for i, x in enumerate(h["infos"]):
+        if x.get("err"):
+            return ("held:error", "connection %d of %d (%s): %s" % (i, h["k"], how, x["err"]))
+        if (x["first"], x["first_n"]) != (x["want"], x["want_n"]):
+            return ("held:wrong-info:" + h["kind"], "%d connections %s: the result of connection %d said (%r, %d protocols) "
+                    "when it was handed out; its hello says (%r, %d)" % (h["k"], how, i, x["first"], x["first_n"], x["want"], x["want_n"]))
+    for i, x in enumerate(h["infos"]):
+        if (x["later"], x["later_n"]) != (x["want"], x["want_n"]):
+            whose = [j for j, y in enumerate(h["infos"]) if y["want"] == x["later"]]
+            return ("held:result-changed:" + h["kind"], "%d connections %s: the *TLSHelloInfo of connection %d said (%r, %d "
+                    "protocols) when it was handed out and says (%r, %d) after the last HelloInfo%s"
+                    % (h["k"], how, i, x["first"], x["first_n"], x["later"], x["later_n"],
+                       " - the name of connection %d" % whose[0] if whose else ""))
+    return None
+
+
 def run(ck):
     try:   # deep list literals: coqc recurses on them
         import resource
@@ -221,6 +245,22 @@ def run(ck):
         for line in out.splitlines():
             if line.startswith("{"):
                 cases.append(json.loads(line))
+
+    # held results: the *TLSHelloInfo of several sniffed connections, read again after the last HelloInfo
+    if binp:
+        rc, out, err = vlib.sh2([binp, "-held", "45" if not ck.thorough else "600", "-seed", str(ck.seed)], timeout=600)
+        if rc != 0:
+            ck.broken.append({"what": "harness run failed (held results)", "detail": err[-1500:]})
+        for line in out.splitlines():
+            if not line.startswith("{"):
+                continue
+            h = json.loads(line)
+            ck.count("held-" + h["kind"], key=("held", h["kind"], h["k"], json.dumps(h["infos"])), trivial=False)
+            bad = held_oracle(h)
+            if bad:
+                ck.violation("impl:" + bad[0], bad[1],
+                             {"case": h, "expected": "every held *TLSHelloInfo keeps saying what its own connection's hello said",
+                              "observed": h["infos"]})
 
     def replay_of(c):
         return {k: c[k] for k in ("i", "stream", "desc", "input", "len", "reclen", "sched", "reads", "late", "to_eof", "want", "obs")
